@@ -380,7 +380,9 @@ class DefaultPredictionStrategy(object):
             self._last_test_train_covar = test_train_covar
 
         if settings.skip_posterior_variances.on():
-            return ZeroLinearOperator(*test_test_covar.size())
+            return ZeroLinearOperator(
+                *test_test_covar.size(), dtype=test_test_covar.dtype, device=test_test_covar.device
+            )
 
         if settings.fast_pred_var.off():
             dist = self.train_prior_dist.__class__(
@@ -773,7 +775,9 @@ class RFFPredictionStrategy(DefaultPredictionStrategy):
 
     def exact_predictive_covar(self, test_test_covar, test_train_covar):
         if settings.skip_posterior_variances.on():
-            return ZeroLinearOperator(*test_test_covar.size())
+            return ZeroLinearOperator(
+                *test_test_covar.size(), dtype=test_test_covar.dtype, device=test_test_covar.device
+            )
 
         if isinstance(test_test_covar, ConstantMulLinearOperator):
             constant = test_test_covar.expanded_constant
